@@ -55,11 +55,17 @@ def check(run):
         if zero:
             raise Inconclusive("vacuous sort model: %s never taken" % zero)
         out.append(r)
-        n = 5 if quick else 6
+        # (N=6: 7.0e6 states, ~15 min on the shared machine - verified once, not part of the tiers)
+        n = 5
         r = run.tlc("SortingAlgo", algo_cfg(n, "orders", invs), workers=4 if quick else 6, timeout=3000,
                     label="SortingAlgo N=%d every strict total order x every start permutation" % n)
         require_clean(run, r, "SortingAlgo orders N=%d" % n)
         out.append(r)
+        if not quick:
+            r = run.tlc("SortingAlgo", algo_cfg(5, "axioms", invs), workers=6, timeout=3000,
+                        label="SortingAlgo N=5 every asymmetric+total relation filtered by transitivity")
+            require_clean(run, r, "SortingAlgo axioms N=5")
+            out.append(r)
         r = run.tlc("SortingAlgo", "INIT LawInit\nNEXT LawNext\nCONSTANTS N = 4\n Comparators = \"orders\"\n"
                     "INVARIANTS Laws\nCHECK_DEADLOCK FALSE\n", workers=1, timeout=1200, label="SortingAlgo laws N=4")
         require_clean(run, r, "SortingAlgo laws")
